@@ -81,8 +81,22 @@ NEEDS.update({
  "C19r3-A": "three assertions on the same credential, two waiting for the per-credential turn at once: single waker slot, the first waiter is never woken",
  "C19r3-B": "an assertion's counter write arriving while another ceremony holds the store lock: try_lock fails and the wrapper returns Ok without writing",
 })
+NEEDS.update({
+ "C04r3-A": "verification capability absent or unconfigured + uv not requested + the validation step reports verification anyway: the UV bit is suppressed",
+ "C04r3-B": "CTAP-level get_assertion with up=false and uv=false whose validation step returns Err: the error is swallowed, a signature is returned, the counter moves",
+ "C06r3-A": "U2F register twice with the same key handle and application: the reuse path reads (y, d) instead of (x, y), the private scalar is returned as public_key.y",
+ "C06r3-B": "non-UV PRF configuration + ceremony without UV + PRF input with `first` only: cred_without_uv is placed in the unused second output",
+ "C08r3-A": "a counter-less credential asserted by an authenticator whose counter option is on: it starts counting and is rewritten",
+ "C08r3-B": "a stored counter of 2^31-1 or more: the increment is capped at i32::MAX (stuck, or moving backwards)",
+ "C11r3-A": "ForcedDiscoverable store + credProps requested + effective rk=false: credProps.rk=false although the credential is discoverable",
+ "C11r3-B": "a handle-storing credential located through a non-empty allow list: no user handle returned",
+ "C17r3-A": "the same key handle registered twice: the second response names a new key but the store keeps the first",
+ "C17r3-B": "authentication with a zero-length key handle: looked up as 'no allow list' (unknown empty handle accepted on the slot store, registered empty handle refused on the map store)",
+ "C18r3-A": "authenticator with an hmac-secret configuration + request carrying the hmac-secret boolean: the trait path drops it (stored record differs, sometimes the response too)",
+ "C18r3-B": "three consecutive uv=true calls through the trait ending in OperationDenied, then another uv call: the trait path answers UserVerificationBlocked",
+})
 # changes whose description showed that the generator could not reach them; strengthened before their first run
-PRE_STRENGTHENED = {"C06r2-A", "C06r2-B"}
+PRE_STRENGTHENED = {"C06r2-A", "C06r2-B", "C17r3-A", "C18r3-B", "C06r3-A"}
 results = {}
 for f in sorted(glob.glob("/tmp/amut*.out.json")) + sorted(glob.glob("/tmp/bmut*.out.json")) + sorted(glob.glob("/tmp/cmut*.out.json")):
     for r in json.load(open(f)):
